@@ -25,6 +25,8 @@ type Gen struct {
 	InLoop   int
 	// Funcs are custom functions known to be registered: recv type -> names
 	Funcs map[string][]string
+	// ObjFail: failing expressions may have object-literal operands
+	ObjFail bool
 	// NoBig suppresses the occasional > 4 KiB text chunk (C18 truncates files at every prefix)
 	NoBig bool
 }
@@ -339,6 +341,9 @@ func (g *Gen) FailExpr() string {
 		return fmt.Sprintf("undef%d", g.tmp)
 	case c < 7:
 		return fmt.Sprintf("(%d / z0)", g.tmp)
+	case c < 8 && g.ObjFail:
+		// failures whose offending node contains an object literal with several keys
+		return Pick(g.R, []string{"({a: 1, b: 2, c: 3} + 1)", "{id: 1, name: 2, zz: 3}.email", "[1, 2].slice({from: 0, to: 2, step: 1})", "(-{x: 1, y: 2})"})
 	default:
 		// type mismatch: the message names both types and the operator
 		ops := []string{"+", "-", "*", "/"}
